@@ -1,14 +1,6 @@
 import Pfl
-#print axioms Pfl.ENFA.acceptsE_iff
-#print axioms Pfl.ENFA.acceptsN_iff
-#print axioms Pfl.ENFA.acceptsD_iff
-#print axioms Pfl.ENFA.removeEps_lang
-#print axioms Pfl.ENFA.removeEps_epsFree
-#print axioms Pfl.ENFA.copyE_lang
-#print axioms Pfl.ENFA.copyD_lang
-#print axioms Pfl.ENFA.toDet_lang
-#print axioms Pfl.ENFA.toDet_lang_noEps
-#print axioms Pfl.ENFA.toDet_shape
-#print axioms Pfl.ENFA.langDiff_none_iff
-#print axioms Pfl.ENFA.langDiff_some
+#print axioms Pfl.ENFA.isEmpty_iff
+#print axioms Pfl.ENFA.isDeterministicE_iff
+#print axioms Pfl.ENFA.isDeterministicN_iff
 #print axioms Pfl.ENFA.member_iff
+#print axioms Pfl.ENFA.langDiff_none_iff
